@@ -3,6 +3,7 @@ package main
 // C04 / C05: the queue under controlled schedules.
 
 import (
+	mod "github.com/craterdog/go-collection-framework/v4"
 	"fmt"
 	"time"
 
@@ -361,7 +362,7 @@ func ctorLines(out *Out, caseID *int) {
 		for i := range vs {
 			vs[i] = i + 1
 		}
-		for _, via := range []string{"array", "sequence", "literal"} {
+		for _, via := range []string{"array", "sequence", "literal", "module-array", "module-sequence", "module-source"} {
 			*caseID++
 			var size, capacity int
 			var contents []int
@@ -373,6 +374,35 @@ func ctorLines(out *Out, caseID *int) {
 				case "sequence":
 					q := col.Queue[int](notation).MakeFromSequence(col.List[int](notation).MakeFromArray(vs))
 					size, capacity, contents = q.GetSize(), int(q.GetCapacity()), q.AsArray()
+				case "module-array":
+					if n == 0 {
+						// an empty Go array selects the default constructor
+						q := mod.Queue[int](vs)
+						size, capacity, contents = q.GetSize(), int(q.GetCapacity()), q.AsArray()
+						break
+					}
+					q := mod.Queue[int](vs)
+					size, capacity, contents = q.GetSize(), int(q.GetCapacity()), q.AsArray()
+				case "module-sequence":
+					q := mod.Queue[int](col.Sequential[int](col.List[int](notation).MakeFromArray(vs)))
+					size, capacity, contents = q.GetSize(), int(q.GetCapacity()), q.AsArray()
+				case "module-source":
+					src := "["
+					for i, v := range vs {
+						if i > 0 {
+							src += ", "
+						}
+						src += fmt.Sprint(v)
+					}
+					if n == 0 {
+						src += " "
+					}
+					src += "](Queue)"
+					q := mod.Queue[int64](src)
+					size, capacity = q.GetSize(), int(q.GetCapacity())
+					for _, x := range q.AsArray() {
+						contents = append(contents, int(x))
+					}
 				default:
 					src := "["
 					for i, v := range vs {
